@@ -20,6 +20,7 @@ import (
 	"io/ioutil"
 	"math/rand"
 	"strings"
+	"sync"
 	"sync/atomic"
 	"time"
 
@@ -32,6 +33,7 @@ import (
 	"verif/harness/lib/ev"
 	"verif/harness/lib/hist"
 	"verif/harness/lib/kvx"
+	"verif/harness/lib/sched"
 	"verif/harness/lib/srv"
 )
 
@@ -41,14 +43,32 @@ import (
 // somebody else. The same code (checkStores) is driven explicitly through VerifCheckStores.
 type guardKV struct {
 	*kvx.KV
-	owner    int64
+	mu       sync.Mutex
+	allowed  map[int64]bool // the harness goroutine and, in the gated phase, its two workers
 	rejected int64
 }
 
 var errForeign = fmt.Errorf("c14: storage write from a background goroutine refused by the harness")
 
+func (g *guardKV) allow(goid int64, on bool) {
+	g.mu.Lock()
+	if on {
+		g.allowed[goid] = true
+	} else {
+		delete(g.allowed, goid)
+	}
+	g.mu.Unlock()
+}
+
+func (g *guardKV) mine() bool {
+	id := hist.Goid()
+	g.mu.Lock()
+	defer g.mu.Unlock()
+	return g.allowed[id]
+}
+
 func (g *guardKV) Save(key, value string) error {
-	if hist.Goid() != g.owner {
+	if !g.mine() {
 		atomic.AddInt64(&g.rejected, 1)
 		return errForeign
 	}
@@ -56,7 +76,7 @@ func (g *guardKV) Save(key, value string) error {
 }
 
 func (g *guardKV) Remove(key string) error {
-	if hist.Goid() != g.owner {
+	if !g.mine() {
 		atomic.AddInt64(&g.rejected, 1)
 		return errForeign
 	}
@@ -73,6 +93,8 @@ type env struct {
 	ctx   context.Context
 	base  map[string]string // storage content right after bootstrap
 	owner int64
+
+	gate atomic.Value // *sched.Sched of the running gated execution, or (*sched.Sched)(nil)
 
 	backend string
 	lost    string // set when the server lost its leadership / restarted its cluster: no verdict
@@ -101,7 +123,18 @@ func (e *env) healthy() bool {
 // server and the running RaftCluster to it.
 func (e *env) setupStorage(base kv.Base) error {
 	e.kv = kvx.New(base)
-	e.guard = &guardKV{KV: e.kv, owner: e.owner}
+	e.guard = &guardKV{KV: e.kv, allowed: map[int64]bool{e.owner: true}}
+	// the gate hooks are installed once; they only do something while a gated execution is on
+	e.kv.Gate = func(kind, key string) {
+		if s, _ := e.gate.Load().(*sched.Sched); s != nil {
+			s.Gate(kind, key)
+		}
+	}
+	e.kv.Done = func(kind, key string) {
+		if s, _ := e.gate.Load().(*sched.Sched); s != nil {
+			s.Done(kind, key)
+		}
+	}
 	st := core.NewStorage(e.guard)
 	if err := st.SaveMeta(e.rc.GetConfig()); err != nil {
 		return err
@@ -186,11 +219,12 @@ func (e *env) resetWorld(md *model) error {
 
 func main() {
 	r := ev.New("C14", "exploration")
-	r.Rule("one case = one sequential history of 40 single commands on a freshly reset cluster (store 1 Up, 3 regions on it): put-store new / same id / same address / id 0 / bad version (RaftCluster.PutStore and gRPC PutStore), RemoveStore with and without physically-destroyed, UpStore, VerifBuryStore, VerifCheckStores, SetStoreWeight, UpdateStoreLabels (merge and force), RemoveTombStoneRecords, gRPC StoreHeartbeat, region placements / evacuations by region heartbeats (sometimes with a peer on a store id that is registered only later), reload of the cluster from storage (RaftCluster.Stop, empty cache, RaftCluster.Start = LoadClusterInfo); targets are drawn from ids 1..6 in every state (incl. tombstone, destroyed, absent); quick: one fail-before/lost-ack fault at a random write of ~1/3 of the steps; thorough: every step is re-issued with a fault at its 1st, 2nd, ... store-record write until no write is left (1/8 of the steps: at every write of any key). distinct = sequence of (command, state of the target before, outcome class, fault class) of the history")
+	r.Rule("one case = one sequential history of 40 single commands on a freshly reset cluster (store 1 Up, 3 regions on it): put-store new / same id / same address / id 0 / bad version (RaftCluster.PutStore and gRPC PutStore), RemoveStore with and without physically-destroyed, UpStore, VerifBuryStore, VerifCheckStores, SetStoreWeight, UpdateStoreLabels (merge and force), RemoveTombStoneRecords, gRPC StoreHeartbeat, region placements / evacuations by region heartbeats (sometimes with a peer on a store id that is registered only later), reload of the cluster from storage (RaftCluster.Stop, empty cache, RaftCluster.Start = LoadClusterInfo); targets are drawn from ids 1..6 in every state (incl. tombstone, destroyed, absent); quick: one fail-before/lost-ack fault at a random write of ~1/3 of the steps; thorough: every step is re-issued with a fault at its 1st, 2nd, ... store-record write until no write is left (1/8 of the steps: at every write of any key). distinct = sequence of (command, state of the target before, outcome class, fault class) of the history. Gated phase (heartbeat-race): 12 lifecycle operations (remove, remove physically-destroyed (+replacement on its address), up, bury, check-stores, bury+cleanup, bury+replacement, put same id, labels, weight) on store 2 x both start orders against a gRPC StoreHeartbeat of store 2 that flushes (first heartbeat after a reload), every storage operation of the two workers gated, all release orders enumerated depth-first (distinct = case x start order x released (worker,op) sequence)")
 	r.Assume("commands are invoked on the RaftCluster object / the gRPC handler methods of a real bootstrapped single-member server; the cluster and the server use core.NewStorage over an instrumented in-memory kv.Base installed with RaftCluster.SetStorage after bootstrap (thorough, last shard: the etcd-backed kv.Base)")
 	r.Assume("storage writes of the server's own background goroutines (10 s checkStores tick, coordinator) are refused by the harness wrapper so that histories are sequential; the same code is driven through VerifCheckStores")
 	r.Assume("region counts of the model are the placements the harness delivered through VerifProcessRegionHeartbeat and pd acknowledged; VerifBuryStore is only called when its documented precondition (store empty) holds in the model; new stores are registered in state Up; peers are never placed on tombstone stores; after a reload the model's placements are what the stored region records (raw scan of raft/r/<id>) say")
 	r.Assume("stored record = what a raw scan of raft/s/<id> and schedule/store_weight/<id>/{leader,region} (absent weight = 1) yields; comparisons ignore last_heartbeat")
+	r.Assume("gated phase: quiescence with a worker blocked on the cluster lock is declared by the scheduler's settle interval (affects exploration order only); the lifecycle worker observes the served stores right after each acknowledgement; a heartbeat is assumed never to change state, flags, address, labels or weights")
 	rng := rand.New(rand.NewSource(r.ShardSeed()))
 
 	// a long leader lease: the run must not lose leadership when the machine is busy (a lost
@@ -240,6 +274,7 @@ func main() {
 
 	md := newModel()
 	e.scripted(md)
+	e.racePhase(md)
 	replaySeed, replaying := int64(0), false
 	if r.Replay != "" {
 		// replay = the scripted histories plus the one random history named by the witness file
@@ -283,7 +318,7 @@ func main() {
 		m.Close()
 		r.Finish()
 	}
-	for _, c := range []string{"hook_VerifCheckStores", "hook_VerifBuryStore", "hook_VerifProcessRegionHeartbeat", "faults_injected", "reloads", "placements_on_unregistered_store_id", "transition_Up->Offline", "transition_Offline->Tombstone", "transition_Offline->Up", "tombstone_grpc_requests", "record_deleted"} {
+	for _, c := range []string{"hook_VerifCheckStores", "hook_VerifBuryStore", "hook_VerifProcessRegionHeartbeat", "faults_injected", "race_executions", "race_heartbeat_flushes", "reloads", "placements_on_unregistered_store_id", "transition_Up->Offline", "transition_Offline->Tombstone", "transition_Offline->Up", "tombstone_grpc_requests", "record_deleted"} {
 		if r.Counter(c) == 0 {
 			r.Inconclusive("nothing observed for %s", c)
 		}
